@@ -25,3 +25,6 @@ pub(crate) use solver::SchedulingSolution;
 
 #[cfg(test)]
 pub(crate) use batches::PriorityCut;
+
+#[cfg(feature = "verif")]
+pub(crate) use taskqueue::OneOrMoreTaskIds;
